@@ -109,6 +109,14 @@ func registerCborKinds(c *core.Ctx) {
 		}
 		return line, "ok b:" + hex.EncodeToString(b)
 	}})
+	c.Register(&core.Kind{Name: "cbor.wfb", Eval: func(p core.Params) (string, string) {
+		e := catByName[p["type"]]
+		seed, _ := strconv.ParseInt(p["vseed"], 10, 64)
+		v := reflect.New(e.T)
+		Fill(mrand.New(mrand.NewSource(seed)), v.Elem(), 3)
+		// the implementation side of this kind is the expectation: generated values are well formed
+		return "cbor.wfb " + e.Desc + " " + desc.Val(v.Elem()), "T"
+	}})
 	c.Register(&core.Kind{Name: "cbor.raw", Eval: func(p core.Params) (string, string) {
 		data, _ := hex.DecodeString(p["bytes"])
 		line := "cbor.raw b:" + p["bytes"]
@@ -390,6 +398,10 @@ func RunC11(c *core.Ctx) {
 				continue
 			}
 			b, _ := hex.DecodeString(o.Impl[5:])
+			// the value the generator produced must lie inside the theorem's hypothesis (wf, via its checker wfb)
+			if !multiOmit(e.T) {
+				c.Do("cbor.wfb", p, "wf-membership")
+			}
 			// independent canonical-form walker
 			if why := canonicalWhy(b, e.Name); why != "" {
 				c.Fail("non-canonical@"+e.Name, why, "cbor.enc", p, o)
